@@ -9,6 +9,10 @@ Every run
      runs the real recovery (`meson setup [--reconfigure]`) and evaluates the property oracle on the result;
   3. compares (A) the observed directory with the model's `crashAt` on the effect prefix logged by the killed
      process itself and (B) the real recovery outcome with the model's `recover` on the observed directory.
+     (C) the size in bytes of every state file after the kill with the bounds of the byte-level model
+     (lean/MesonModel/Crash/Buffered.lean: user-space buffers, handles that follow their inode through a rename) run
+     on the logged prefix with the logged write sizes; every boundary between an os.replace and the close of a handle
+     still open on its source is a kill point.
 """
 from __future__ import annotations
 
@@ -104,7 +108,10 @@ def proj_of(hist: str) -> str:
 
 SETUP_FLAVOUR = {'fresh': SETUP_ARGS, 'freshn': SETUP_ARGS + NATIVE, 'freshx': SETUP_ARGS + CROSS, 'freshr': SETUP_ARGS}
 MACHINE_FILE_HISTS = {'freshn', 'freshx', 'n1', 'n2', 'x1'}
-COREDATA_ONLY_HISTS = MACHINE_FILE_HISTS | {'e2'}
+# histories in which some option value lives in coredata.dat and nowhere else (the environment of the first setup);
+# values from a machine file are reproducible from cmd_line.txt ([properties] names the file; it is re-read whenever
+# the configuration is rebuilt from cmd_line.txt, also for a directory without coredata.dat since the --wipe repairs)
+COREDATA_ONLY_HISTS = {'e2'}
 # how the command ends when nobody kills it
 VARIANTS = {
     'ok': 'succeeds',
@@ -158,7 +165,7 @@ class Scn(T.NamedTuple):
 
     @property
     def mf(self) -> bool:
-        """some option values of the directory live only in coredata.dat (machine file, environment of the first setup)"""
+        """some option values of the directory live only in coredata.dat (environment of the first setup)"""
         return self.hist in COREDATA_ONLY_HISTS
 
     def dvals(self) -> T.Dict[str, str]:
@@ -771,14 +778,6 @@ def record(slot: Slot, sc: Scn) -> dict:
             run_proc(rargv, meson_env(slot.tmp, slot.bd, slot.log))
             torn_recoveries[p] = parse_log(slot.log)
     nomf_vals = None
-    if sc.mf and sc.cmd != 'setup' and pre_cl is not None:
-        # what a first-time setup with only the -D options stored in the old cmd_line.txt (no machine file) yields
-        common.rmtree(slot.bd)
-        m = [sys.executable, os.path.join(common.REPO, 'meson.py'), 'setup'] + \
-            [f'-D{k}={v}' for k, v in pre_cl['options'].items()] + [slot.bd, proj_of(sc.hist)]
-        rc2, _out2 = run_proc(m, meson_env(slot.tmp))
-        if rc2 == 0:
-            nomf_vals = coredata_values(os.path.join(slot.bd, 'meson-private', 'coredata.dat'))
     slot.clean_tmp()
     return {'scn': sc, 'rc': rc, 'nomf_vals': nomf_vals, 'recovery_raw': recovery_raw, 'orphans': orphans, 'torn_recoveries': torn_recoveries, 'out': out[-800:], 'raw': raw, 'pre_list': pre_list, 'pre_obs': pre_obs,
             'post_obs': post_obs, 'pre_vals': pre_vals, 'post_vals': post_vals, 'older_vals': older_vals}
@@ -962,10 +961,12 @@ def crash_point(slot: Slot, sc: Scn, k: int, mode: str, second_always: bool = Fa
     slot.restore(sc.hist, sc.backend)
     if os.path.exists(slot.log):
         os.unlink(slot.log)
+    pre_sizes = file_sizes(slot.bd)
     argv = meson_argv(sc.cmd, sc.args, slot.bd, sc.backend, proj_of(sc.hist))
     rc, out = run_proc(argv, meson_env(slot.tmp, slot.bd, slot.log, k, 'torn' if mode == 't' else 'before',
                                        extra=sc.env_extra))
     prefix = parse_log(slot.log)
+    sizes = file_sizes(slot.bd)
     obs = observe(slot.bd)
     crashed_vals = coredata_values(os.path.join(slot.bd, 'meson-private', 'coredata.dat'))
     configured = os.path.exists(os.path.join(slot.bd, 'meson-private', 'coredata.dat'))
@@ -1000,10 +1001,40 @@ def crash_point(slot: Slot, sc: Scn, k: int, mode: str, second_always: bool = Fa
                   'changed': sorted(n for n in set(arte) | set(arte2) if arte.get(n) != arte2.get(n))[:6]}
     slot.clean_tmp()
     return {'unreadable': unreadable, 'consumers_failed': cmds_failed, 'artefacts': arte, 'ninja_text': ninja_text if sc.backend == 'ninja' else '', 'leftovers': left,
-            'second': second,
+            'second': second, 'pre_sizes': pre_sizes, 'sizes': sizes,
             'scn': sc.name, 'k': k, 'mode': mode, 'crash_rc': rc, 'prefix': prefix, 'obs': obs,
             'crashed_vals': crashed_vals, 'recovery': rkind, 'rrc': rrc, 'traceback': trace_back,
             'rout': rout[-1500:], 'after_vals': after_vals, 'after': after, 'build_load_ok': bdat}
+
+
+BUF_PATHS = [0, 1, 2, 3, 4, 5, 6, 8]     # the state files that are files (Driver/Crash.lean bufFilePaths)
+
+
+def file_sizes(bd: str) -> T.Dict[str, T.Optional[int]]:
+    """state file -> size in bytes, None when absent"""
+    out: T.Dict[str, T.Optional[int]] = {}
+    for pid in BUF_PATHS:
+        p = os.path.join(bd, STATE_FILES[pid])
+        out[STATE_FILES[pid]] = os.path.getsize(p) if os.path.isfile(p) and not os.path.islink(p) else None
+    return out
+
+
+def buf_line(r: dict, I: Interner) -> str:
+    """the byte-level model (Crash/Buffered.lean) on the effects the killed process completed"""
+    items = []
+    for k, p, x in r['prefix'][:r['k']]:
+        c = KIND_CODE[k]
+        if c == 'w':
+            items.append(f'w:{I(p)}:{int(x) if x.isdigit() else 0}')
+        elif c == 'cl':
+            items.append(f'cl:{I(p)}')
+        elif c in ('rp', 'cp'):
+            items.append(f'{c}:{I(p)}:{I(x)}')
+        else:
+            items.append(f'{c}:{I(p)}')
+    sizes = ';'.join(f'{FIXED_IDS[rel]}:{n}' for rel, n in sorted(r['pre_sizes'].items(), key=lambda kv: FIXED_IDS[kv[0]])
+                     if n is not None)
+    return f'bufsize {sizes}|{";".join(items)}'
 
 
 def choose_points(ctx: Ctx, raw: T.List[Raw], extra: T.Iterable[T.Tuple[int, str]],
@@ -1040,8 +1071,35 @@ def choose_points(ctx: Ctx, raw: T.List[Raw], extra: T.Iterable[T.Tuple[int, str
                 pts.add(((s + end) // 2, 'b'))
         if e[0] == 'copyfile' and (ctx.deep or critical):
             pts.add((s, 't'))
+    for lo, hi in open_across_replace(raw):
+        # the buffered dimension: a handle still open on a file that is renamed into place may hold unflushed data;
+        # every boundary from the rename to the close of that handle is a kill point, whatever the file
+        for j in range(lo, min(hi, n - 1) + 2):
+            pts.add((j, 'b'))
     pts.add((n, 'b'))      # nothing killed: the completed command
     return sorted(pts)
+
+
+def open_across_replace(raw: T.List[Raw]) -> T.List[T.Tuple[int, int]]:
+    """(raw index of an os.replace/rename, raw index of the later close) for every handle that is open on the
+    source of the rename when it happens (handles are named by the path they were opened with, as the recorder
+    logs them); the close index is len(raw) when the handle is never closed"""
+    open_at: T.Dict[str, int] = {}
+    pending: T.Dict[str, int] = {}
+    out: T.List[T.Tuple[int, int]] = []
+    for i, (k, p, _x) in enumerate(raw):
+        if k in ('open_w', 'open_a'):
+            if p in pending:
+                out.append((pending.pop(p), len(raw)))
+            open_at[p] = i
+        elif k == 'close':
+            open_at.pop(p, None)
+            if p in pending:
+                out.append((pending.pop(p), i))
+        elif k in ('replace', 'rename') and p in open_at:
+            pending.setdefault(p, i)
+    out += [(i, len(raw)) for i in pending.values()]
+    return sorted(out)
 
 
 # ---------------------------------------------------------------- comparison and oracle
@@ -1218,11 +1276,9 @@ def expected_values(rec: dict, verdict: str, r: dict) -> T.Optional[T.Dict[str, 
     g = verdict.rsplit(':', 1)[1]
     if sc.variant != 'ok' and g != '1':
         return None                       # content written by a command that then failed: no reference snapshot
-    if verdict.startswith('usable:clo:') and sc.mf:
-        # -D options of cmd_line.txt re-applied, values that live only in coredata.dat not reproduced
-        if sc.cmd == 'setup':
-            return rec['post_vals'] if sc.variant == 'ok' else None
-        return rec.get('nomf_vals') if g == '1' else None
+    if verdict.startswith('usable:cl:') and sc.mf:
+        # rebuilt from cmd_line.txt: values that live only in coredata.dat are not reproduced; no reference snapshot
+        return rec['post_vals'] if sc.cmd == 'setup' and sc.variant == 'ok' else None
     return {'0': rec['older_vals'], '1': rec['pre_vals'], '2': rec['post_vals']}.get(g)
 
 
@@ -1243,6 +1299,32 @@ def evaluate(ctx: Ctx, rec: dict, results: T.List[dict]) -> None:
         a, b = model_lines(rec, r, I, st0)
         lines += [a, b]
     answers = ctx.driver('crash', lines) if ctx.model_available and lines else []
+    # (C) buffer model: bytes in each state file after the kill.  A write() reaches the file at flush/close at the
+    # latest (lower bound: nothing leaves the buffer earlier) and at once at the earliest (upper bound)
+    bres = [r for r in results if r['mode'] == 'b' and r.get('pre_sizes') is not None]
+    banswers = ctx.driver('crash', [buf_line(r, I) for r in bres]) if ctx.model_available and bres else []
+    for r, ans in zip(bres, banswers):
+        cells = ans.split(',')
+        if len(cells) != len(BUF_PATHS):
+            ctx.disagreement({'scenario': sc.name, 'k': r['k'], 'what': 'buffer model: unusable answer', 'answer': ans[:100]})
+            continue
+        for pid, cell in zip(BUF_PATHS, cells):
+            rel = STATE_FILES[pid]
+            got = r['sizes'].get(rel)
+            ctx.tag('buffer-model:file-sizes-compared')
+            if cell == '?':
+                continue
+            if cell == 'a':
+                ok = got is None
+            else:
+                lo, hi = (int(v) for v in cell.split('-'))
+                ok = got is not None and lo <= got <= hi
+                if ok and lo < hi:
+                    ctx.tag('buffer-model:data-pending-at-kill' if got < hi else 'buffer-model:data-already-in-file')
+            if not ok:
+                ctx.disagreement({'scenario': sc.name, 'k': r['k'], 'mode': r['mode'], 'what': 'bytes in file after kill (buffer model)',
+                                  'file': rel, 'model(lo-hi)': cell, 'observed': got})
+                break
     for i, r in enumerate(results):
         ctx.count()
         ctx.tag('cmd:' + sc.cmd)
@@ -1386,6 +1468,7 @@ def run_scenarios(ctx: Ctx, scenarios: T.List[Scn]) -> None:
         wset = scn_wset(rec)
         ctx.tag('crash-points:' + sc.name, len(pts))
         ctx.tag('effects-recorded:' + sc.name, len(rec['raw']))
+        ctx.tag('handles-open-across-a-rename', len(open_across_replace(rec['raw'])))
         for k, mode in pts:
             futs.append((sc, P.submit(crash_point, sc, k, mode, bool(ctx.deep and k % 8 == 0), wset)))
     by: T.Dict[Scn, T.List[dict]] = {}
